@@ -284,6 +284,11 @@ def classify(case, r, fail, st):
     kind = fail['kind']
     skew = oracle_skew(st.get('dump') or {})
     has_skew = 'i' in fl and any(c in skew for t in case['tcs'] for c in t)
+    if kind == 'compile':
+        # K5: valid, but larger than the regex crate's default size limit; accepted with a raised limit
+        if 'size limit' in str(fail.get('detail')) and v.get('compile_with_raised_limit') is True:
+            return 'K5'
+        return None
     if kind == 'unmatched':
         um = fail['unmatched']
         if v.get('k4') and all(t == [] for t in um):
